@@ -17,6 +17,29 @@ Definition glue_C07 (k : string) (a o : list value) : option verdict :=
     | Some b => Some (relational b b)
     | None => Some (relational false true)
     end
+  else if is k "tss.race" then
+    (* observed: exit status of the child built with the race detector, whether it reported a
+       data race, and the final store: structurally sound as after any sequential history *)
+    match o with
+    | [VZ status; VZ race; VL its; qv] =>
+        match parse_queue qv with
+        | Some queue =>
+            let items_ok := forallb (fun v =>
+              match v with
+              | VL [VZ cid; VZ qval; VZ qidx; VL ents] =>
+                  match parse_pairs ents with
+                  | Some ps => C07_item_ok (icap real_config) cid {| oi_qval := qval; oi_qidx := qidx; oi_ents := ps |} queue false
+                               && pairs_ordered ps
+                  | None => false
+                  end
+              | _ => false
+              end) its in
+            let ok := (status =? 0) && (race =? 0) && items_ok && C07_queue_ok (cap real_config) (length its) queue in
+            Some (relational ok ok)
+        | None => Some (relational false true)
+        end
+    | _ => Some (relational false true)
+    end
   else if is k "tss.lockdiscipline" then
     (* args: functions seen, functions that touch the store; observed: the violations of the lock discipline *)
     match a, o with
